@@ -486,6 +486,13 @@ func (g *G) cdxTreeDoc(v int, inClass bool) M {
 	if g.Chance(0.4) {
 		types = append(types, M{"t": float64(g.Pick2([]int{1, 2, 3, 4, 5, 7, 8}))})
 	}
+	if g.Chance(0.25) {
+		// a named lifecycle after (or without) a typed one
+		types = append(types, M{"n": "free", "d": "text"})
+		if g.Chance(0.5) {
+			types = append(types, M{"t": float64(g.Pick2([]int{1, 3, 4}))})
+		}
+	}
 	if !inClass && g.Chance(0.3) {
 		types = append(types, M{"t": float64(g.Pick2([]int{0, 6, 99})), "n": "Custom"})
 	}
@@ -646,7 +653,7 @@ func inCdxClass(d M, v int) bool {
 	for _, t := range asList(md["types"]) {
 		tm := t.(M)
 		if tm["t"] == nil {
-			return false
+			continue // a named lifecycle: no type is written, none comes back
 		}
 		k := asInt(tm["t"])
 		if !(k >= 1 && k <= 8 && k != 6) {
@@ -1032,6 +1039,17 @@ func oracleCdx(op M, res any, exec func(M) any) []Finding {
 					}
 					if !Equal(identityAttrs(a)["Hashes"], identityAttrs(b)["Hashes"]) {
 						add("C03", "hashes of node %q change across CycloneDX", id)
+					}
+					purl := func(n M) string {
+						for _, p := range asList(attrOf(n, "Identifiers")) {
+							if asInt(p.([]any)[0]) == 1 {
+								return asStr(p.([]any)[1])
+							}
+						}
+						return ""
+					}
+					if purl(a) != purl(b) {
+						add("C03", "package URL of node %q changes across CycloneDX: %q vs %q", id, purl(a), purl(b))
 					}
 				}
 			}
